@@ -1,6 +1,6 @@
 (* C09: the per-operation preservation lemmas combined, and the lift to whole graphs. *)
 From CC Require Import Base.Prelude Base.Scalar Base.Ty Base.Shape Graph.Value Graph.IR Graph.Eval
-  Graph.Typing Proofs.EvalProofs Proofs.TypingBase Proofs.TypingTuple Proofs.TypingArith Proofs.TypingBits Proofs.TypingReduce Proofs.TypingStruct Proofs.TypingStack Proofs.TypingPermute Proofs.TypingZip Proofs.TypingPermOps Proofs.TypingSegment Proofs.TypingReshape Proofs.TypingConcat Proofs.TypingSlice Proofs.TypingDot Proofs.TypingMatmul.
+  Graph.Typing Proofs.EvalProofs Proofs.TypingBase Proofs.TypingTuple Proofs.TypingArith Proofs.TypingBits Proofs.TypingReduce Proofs.TypingStruct Proofs.TypingStack Proofs.TypingPermute Proofs.TypingZip Proofs.TypingPermOps Proofs.TypingSegment Proofs.TypingReshape Proofs.TypingConcat Proofs.TypingSlice Proofs.TypingDot Proofs.TypingMatmul Proofs.TypingGemm.
 
 (* operations for which preservation is a theorem *)
 Definition proved_op (o : op) : bool :=
@@ -11,7 +11,7 @@ Definition proved_op (o : op) : bool :=
   | OAdd | OSubtract | OMultiply | OMixedMultiply | OTruncate _
   | OA2B | OB2A _ | OSum _ | OCumSum _
   | OGet _ | OArrayToVector | OVectorToArray | OPrint _ | OAssert _ | OStack _ | OPermuteAxes _
-  | OZip | OGather _ | OInversePermutation | OApplyPermutation _ | OSegmentCumSum | OReshape _ | OConcatenate _ | OGetSlice _ | ODot | OMatmul
+  | OZip | OGather _ | OInversePermutation | OApplyPermutation _ | OSegmentCumSum | OReshape _ | OConcatenate _ | OGetSlice _ | ODot | OMatmul | OGemm _ _
   (* value supplied from outside (eval_node answers Err): preservation holds vacuously *)
   | ORandom _ | OPRF _ _ | OPermutationFromPRF _ _ | ORandomPermutation _ | OCuckooToPermutation
   | ODecomposeSwitchingMap _ => true
@@ -31,7 +31,7 @@ Proof.
           | apply preserves_get | apply preserves_array_to_vector | apply preserves_vector_to_array
           | apply preserves_print | apply preserves_assert | apply preserves_stack | apply preserves_permute_axes
           | apply preserves_zip | apply preserves_gather | apply preserves_inverse_permutation
-          | apply preserves_apply_permutation | apply preserves_segment_cum_sum | apply preserves_reshape | apply preserves_concatenate | apply preserves_get_slice | apply preserves_dot | apply preserves_matmul
+          | apply preserves_apply_permutation | apply preserves_segment_cum_sum | apply preserves_reshape | apply preserves_concatenate | apply preserves_get_slice | apply preserves_dot | apply preserves_matmul | apply preserves_gemm
           | apply preserves_random | apply preserves_prf | apply preserves_permutation_from_prf
           | apply preserves_random_permutation | apply preserves_cuckoo_to_permutation
           | apply preserves_decompose_switching_map ].
